@@ -104,6 +104,13 @@ def bounds(lean_open):
         return B(1, 1, 1)
     if name == "bufferized_up":
         return B(1, ps[0] + 3, 1)
+    if name == "pipeactor":
+        return B(1, ps[0] + 1, 1)                       # pipeActor_progress / pipeActor_no_livelock (L + 1)
+    if name == "crossbar":
+        n = ps[0]
+        return B(1, 1, coop_extra=lambda ex: ex[0] == ex[1] and ex[0] < n,
+                 note="cooperative = valid, ready and demux.sel = mux.sel < n; both selectors are held while a "
+                      "token waits (crossbar_stable)")
     if name == "chain3":
         return B(1, 3)
     if name == "chain_fb_pr":
@@ -200,8 +207,10 @@ def mk_chain3(depth, layout, tokens=None):
 # Lean theorems of LitexProps/C04.lean: Dispatcher (dispatcher_progress), plain PacketFIFO (packetfifo_progress,
 # packetfifo_no_livelock: pd + 1), aligned Packetizer/Depacketizer (packetizer_no_livelock: 1,
 # depacketizer_no_livelock: W + 1), Arbiter with every master offering (arbiter_progress, arbiter_no_starvation: n).
-# Declared and measured only (open statements in the same file): buffered PacketFIFO (pd + 2), Arbiter with a subset
-# of masters offering (2), unaligned Packetizer/Depacketizer.  All are enforced with the usual slack of 2 cycles.
+# buffered PacketFIFO (packetfifo_buffered_progress: 1, packetfifo_buffered_no_livelock: pd + 2).
+# Declared and measured only (open statements in the same file): Arbiter with a subset of masters offering (2),
+# unaligned Packetizer/Depacketizer progress (stability of the Packetizer for every header length:
+# packetizer_stable_partial).  All are enforced with the usual slack of 2 cycles.
 PK = dict(k_arb=(2, 2), k_disp=1, k_fifo=(1, None), k_fifo_buf=(1, None), k_pk=(1, 1), k_dpk=(1, None),
           k_pk_u=(1, 1))
 
@@ -510,7 +519,11 @@ def jobs(tier):
     from props import c03
     quick = tier == "quick"
     J = []
-    for job in c03.jobs(tier) + c03.glue_jobs(tier):
+    n_base = len(c03.jobs(tier))
+    for k, job in enumerate(c03.jobs(tier) + c03.glue_jobs(tier)):
+        if k >= n_base and quick and job.mode == "B":
+            # glue instances: the lock-step comparison over long runs is C03's; here the monitors and the watchdog
+            job.kw["cycles"] = min(job.kw.get("cycles", 2000), 1000)
         if _is_monitor(job):
             J.append(Job("B0", lambda job=job: MonTransparent(job.make()), cycles=1500 if quick else 15000, runs=1))
             continue
